@@ -33,8 +33,33 @@ AVOID = {
  "C19": "the six-month comparison in output_timestamp; backtracking in match_glob",
  "C20": "close_decoder freeing the inner decoder only when the outer exists; fclose skipped when do_decode fails",
 }
+AVOID3 = {
+ "C01": "build_tree 16-bit codes; LHARK code 288",
+ "C02": "a 16-bit limit in read_code; bytes-requested vs bytes-returned in peek_bits",
+ "C03": "lzs copy at the write position; lz5 ring hoisted to file scope",
+ "C04": "pm1 zero-fill supplied only once; pm2 offset 8191 rejected",
+ "C05": "8-bit total header length; group decoder freeing the user name",
+ "C06": "match_glob star not matching the empty run; q0 not forcing overwrite",
+ "C07": "test_archived_file_crc returning 1 under quiet; read_compressed not returning 0 on a failed read",
+ "C08": "stale curr_file after a failed skip in lha_basic_reader_next_file; malloc(data_len+1) in the path decoder",
+ "C09": "OUTPUT_BUFFER_SIZE shrunk in lh_new_decoder; code-table count clamp",
+ "C10": "fake-dir metadata applied to the header path; is_dangerous_symlink path_start",
+ "C11": "'/'->'_' rewrite stopping at '|'; collapse_path skipped for symlinks",
+ "C12": "level-1 path_len bound; directory accepted with a filename only",
+ "C13": "close_decoder early return; skip loop result < 0",
+ "C14": "direct-decode fast path ignoring the clamp; CRC over buf_len",
+ "C15": "strlen-1 prefix compare in end_of_top_dir; file_header_path_len else-if",
+ "C16": "512-byte block skip in file_source_skip_fallback; empty_leadin memmove guard",
+ "C17": "lazily built two-byte table; word-wise zero skip",
+ "C18": "method scrub of bytes 1..3 only; owner names printed with printf",
+ "C19": "integer overflow in compression_percent; 0x7f in safe_output",
+ "C20": "add_ref before a failing placeholder fopen; path=filename before strdup in split_header_filename",
+}
 extra = ""
-if round2:
+if len(sys.argv) > 3 and sys.argv[3] == "r3":
+    extra = ("\n\nIMPORTANT: changes at the following sites/mechanisms have already been collected for this property; produce changes that hit DIFFERENT functions and mechanisms: "
+             + AVOID.get(pid, "") + "; " + AVOID3.get(pid, "") + ". Prefer kinds of change not in that list: two cooperating sites that each look fine alone, an error/cleanup path, a boundary of a numeric field or counter, an interaction between two options or two extended headers, state carried from one member/call to the next. Name your output directories " + pid + "-5 and " + pid + "-6.")
+elif round2:
     extra = "\n\nIMPORTANT: changes at the following sites/mechanisms have already been collected for this property; produce changes that hit DIFFERENT functions and mechanisms (different clause of the property if possible): " + AVOID.get(pid, "") + ". Name your output directories " + pid + "-3 and " + pid + "-4 instead of -1 and -2."
 print(f"""You are helping to evaluate a verification framework for the open-source C project fragglet/lhasa (a library and CLI that parses and decompresses LHA/LZH archives). Your job: write realistic *defect-introducing* changes ("seeded bugs") against a stated semantic property, so that we can later see whether independent machinery detects them. You work ONLY inside your own scratch git worktree of the project: {wt}  (it is already configured; `make -j16` builds it in ~15 s and `make -j16 check` runs the project's own test suite in ~1-2 minutes; the CLI test binary is src/test-lha, the normal one src/lha; the static test library is lib/liblhasatest.a, public headers are in lib/public). Do NOT read or touch /verif or /repo, and do not look at any other /tmp/wt-* directory. There is no network.
 
